@@ -2,7 +2,7 @@
    treatment acts, what the establishment test decides, what the removal rules
    leave behind. *)
 From Coq Require Import ZArith QArith Qabs List Bool Lia Lqa.
-From Pops Require Import Err Rounding RoundingProps CellDefs CellProps LandDefs MonadProps LandProps.
+From Pops Require Import Err Rounding RoundingProps CellDefs CellProps LandDefs MonadProps LandProps EnvDefs.
 Import ListNotations.
 Local Open Scope Z_scope.
 
@@ -150,11 +150,6 @@ Proof.
     left. split; [reflexivity|]. unfold suit_value. rewrite Gw. reflexivity.
 Qed.
 
-(* weather drawn from a distribution: normal value, uniform fallback when it
-   leaves [0, 1] (NormalDistributionWithUniformFallback) *)
-Definition weather_draw (normal uniform : Q) : Q :=
-  if qltb normal 0 || qltb 1 normal then uniform else normal.
-
 Lemma weather_draw_in_range normal uniform : (0 <= uniform <= 1)%Q ->
   (0 <= weather_draw normal uniform <= 1)%Q.
 Proof.
@@ -169,3 +164,46 @@ Lemma pesticide_then_mortality_refuted :
   treat_pesticide Ratio (1 # 2) (mkcell 0 [] 2 0 0 [1; 1] 0 2) = Ok (mkcell 0 [] 1 0 1 [1; 1] 0 2) /\
   apply_mortality (mkcell 0 [] 1 0 1 [1; 1] 0 2) 1 0 = Err RuntimeError.
 Proof. vm_compute. split; reflexivity. Qed.
+
+(* every value produced by update_weather_from_distribution lies in [0, 1],
+   whatever the normal variates, for uniform variates in [0, 1]; a mean outside
+   [0, 1] or mismatching shapes are rejected *)
+Lemma weather_cells_in_range means : forall draws vals,
+  Forall (fun d => (0 <= snd d <= 1)%Q) draws -> weather_cells means draws = Ok vals ->
+  Forall (fun v => (0 <= v <= 1)%Q) vals /\ length vals = length means /\
+  Forall (fun m => (0 <= m <= 1)%Q) means.
+Proof.
+  induction means as [|m rm IH]; intros draws vals Hd H; cbn [weather_cells] in H.
+  - injection H as <-. repeat split; constructor.
+  - destruct (qltb m 0 || qltb 1 m) eqn:E; [discriminate|].
+    destruct draws as [|[nv uv] rd]; [discriminate|].
+    destruct (weather_cells rm rd) as [rest|] eqn:Er; [|discriminate]. cbn [bind] in H. injection H as <-.
+    inversion Hd as [|? ? Hu Hr]; subst. destruct (IH _ _ Hr Er) as (A & B & C).
+    apply orb_false_iff in E as (E1 & E2). unfold qltb in E1, E2. apply negb_false_iff in E1, E2.
+    apply Qle_bool_iff in E1, E2.
+    repeat split; [constructor; [apply weather_draw_in_range; exact Hu|exact A]|cbn [length]; lia|constructor; auto].
+Qed.
+
+Lemma weather_mean_out_of_range_rejected pre m post draws :
+  Forall (fun x => (0 <= x <= 1)%Q) pre -> (length pre <= length draws)%nat ->
+  (m < 0 \/ 1 < m)%Q -> weather_cells (pre ++ m :: post) draws = Err InvalidArgument.
+Proof.
+  revert draws. induction pre as [|x r IH]; intros draws Hp Hl Hm; cbn [app weather_cells].
+  - assert (E : qltb m 0 || qltb 1 m = true).
+    { unfold qltb. apply orb_true_iff. destruct Hm as [H|H]; [left|right]; apply negb_true_iff;
+        destruct (Qle_bool _ _) eqn:Eb; try reflexivity; apply Qle_bool_iff in Eb; exfalso; eapply Qlt_not_le; eauto. }
+    rewrite E. reflexivity.
+  - inversion Hp as [|? ? Hx Hr]; subst.
+    assert (E : qltb x 0 || qltb 1 x = false).
+    { unfold qltb. apply orb_false_iff. split; apply negb_false_iff; apply Qle_bool_iff; apply Hx. }
+    rewrite E. destruct draws as [|[nv uv] rd]; [cbn in Hl; lia|].
+    rewrite IH; [reflexivity|assumption|cbn in Hl; lia|assumption].
+Qed.
+
+Lemma weather_shape_mismatch_rejected mr mc sr sc means draws : (mr <> sr \/ mc <> sc) ->
+  update_weather_from_distribution mr mc sr sc means draws = Err InvalidArgument.
+Proof.
+  intros H. unfold update_weather_from_distribution.
+  destruct (Z.eqb_spec mr sr); cbn [negb]; [|reflexivity].
+  destruct (Z.eqb_spec mc sc); cbn [negb]; [|reflexivity]. destruct H; contradiction.
+Qed.
